@@ -50,25 +50,10 @@ theorem common_exact (a b : DurTy) (h : PairTyOk a b) (x y : Int) (hin : PairIn 
 /-- `operator<` compares the exact values. -/
 theorem lt_eq (a b : DurTy) (h : PairTyOk a b) (x y : Int) (hin : PairIn a b x y) :
     lt a b x y = .ok (Spec.lt a.per.toRat b.per.toRat x y) := by
-  obtain ⟨c1, c2⟩ := both_common a b h x y hin
-  obtain ⟨ha, hb, hpa, hpb, hc⟩ := h
-  obtain ⟨e1, e2, hpos, _⟩ := mul_rat a.per b.per hpa hpb hc.1
   unfold lt
-  rw [pairCtx_eq a b ha hb hpa hpb hc]
-  simp only [bind, Except.bind, ltCore, c1, c2]
-  unfold Spec.lt Spec.val
-  congr 1
-  rw [decide_eq_decide, ← e1, ← e2]
-  constructor
-  · intro hlt
-    have : ((x * mulL a.per b.per : Int) : ℚ) < ((y * mulR a.per b.per : Int) : ℚ) := by exact_mod_cast hlt
-    push_cast at this
-    nlinarith [mul_lt_mul_of_pos_right this hpos]
-  · intro hlt
-    have : ((x : ℚ) * mulL a.per b.per) * (cdPer a.per b.per).toRat < ((y : ℚ) * mulR a.per b.per) * (cdPer a.per b.per).toRat := by
-      nlinarith
-    have := lt_of_mul_lt_mul_right this (le_of_lt hpos)
-    exact_mod_cast this
+  rw [pairCtx_eq a b h.1 h.2.1 h.2.2.1 h.2.2.2.1 h.2.2.2.2]
+  simp only [bind, Except.bind]
+  exact ltCore_spec a b h x y hin
 
 /-- `operator==` compares the exact values. -/
 theorem eq_eq (a b : DurTy) (h : PairTyOk a b) (x y : Int) (hin : PairIn a b x y) :
@@ -148,14 +133,6 @@ theorem sub_exact (a b : DurTy) (h : PairTyOk a b) (x y : Int) (hin : PairIn a b
 
 /-! ## floor, ceil -/
 
-theorem ltCore_spec (a b : DurTy) (h : PairTyOk a b) (x y : Int) (hin : PairIn a b x y) :
-    ltCore (pairK a b) x y = .ok (Spec.lt a.per.toRat b.per.toRat x y) := by
-  have := lt_eq a b h x y hin
-  obtain ⟨ha, hb, hpa, hpb, hc⟩ := h
-  unfold lt at this
-  rw [pairCtx_eq a b ha hb hpa hpb hc] at this
-  simpa [bind, Except.bind] using this
-
 /-- `floor<To>(d)` is the greatest integer not above the exact quotient `c · p / q`, also for negative counts.
     `hcmp`: the comparison `t > d` converts `d` and the truncated result to their common type; `hstep`: `t - 1` is a value
     of `To::rep`. -/
@@ -163,30 +140,10 @@ theorem floor_eq (dst frm : DurTy) (h : CastTyOk dst frm) (hp : PairTyOk frm dst
     (hcmp : PairIn frm dst c (Spec.cast frm.per.toRat dst.per.toRat c))
     (hstep : dst.rep.inR (Spec.cast frm.per.toRat dst.per.toRat c + -1) = true) :
     floorTo dst frm c = .ok (Spec.floor frm.per.toRat dst.per.toRat c) := by
-  have hQ := toRat_pos dst.per h.2.2.2.1
-  have hcast := castCore_spec dst frm h c hin
-  have hlt := ltCore_spec frm dst hp c _ hcmp
-  have hctx : floorCtx dst frm = .ok ⟨dst, castK dst frm, pairK frm dst⟩ := by
-    unfold floorCtx
-    rw [castCtx_eq dst frm h.1 h.2.1 h.2.2.1 h.2.2.2.1 h.2.2.2.2, pairCtx_eq frm dst hp.1 hp.2.1 hp.2.2.1 hp.2.2.2.1 hp.2.2.2.2]
-    rfl
   unfold floorTo
-  rw [hctx]
-  simp only [bind, Except.bind, floorCore, hcast, hlt]
-  rw [spec_lt_left _ _ hQ]
-  have key := trunc_floor_adjust (Spec.val frm.per.toRat c / dst.per.toRat)
-  unfold Spec.floor
-  rw [rat_floor_eq, ← key]
-  by_cases hx : Spec.val frm.per.toRat c / dst.per.toRat < ((Spec.cast frm.per.toRat dst.per.toRat c : Int) : ℚ)
-  · have hx' : Spec.val frm.per.toRat c / dst.per.toRat < ((Spec.trunc (Spec.val frm.per.toRat c / dst.per.toRat) : Int) : ℚ) := hx
-    rw [if_pos hx']
-    simp only [hx, decide_true, if_true]
-    rw [step1_eq dst h.1 _ _ hstep]
-    rfl
-  · have hx' : ¬ Spec.val frm.per.toRat c / dst.per.toRat < ((Spec.trunc (Spec.val frm.per.toRat c / dst.per.toRat) : Int) : ℚ) := hx
-    rw [if_neg hx']
-    simp only [hx, decide_false, Bool.false_eq_true, if_false]
-    rfl
+  rw [floorCtx_eq dst frm h hp]
+  simp only [bind, Except.bind]
+  exact floorCore_spec dst frm h hp c hin hcmp hstep
 
 /-- `ceil<To>(d)` is the least integer not below the exact quotient. -/
 theorem ceil_eq (dst frm : DurTy) (h : CastTyOk dst frm) (hp : PairTyOk dst frm) (c : Int) (hin : CastIn dst frm c)
@@ -217,5 +174,154 @@ theorem ceil_eq (dst frm : DurTy) (h : CastTyOk dst frm) (hp : PairTyOk dst frm)
     rw [if_neg hx']
     simp only [hx, decide_false, Bool.false_eq_true, if_false]
     rfl
+
+/-! ## round -/
+
+/-- static preconditions of `round<To>(From)`: those of `floor`, of the comparisons and differences in both orders,
+    of `low + To{1}`, and of comparing the two differences (whose types are the two common types) -/
+def RoundTyOk (dst frm : DurTy) : Prop :=
+  CastTyOk dst frm ∧ PairTyOk frm dst ∧ PairTyOk dst frm ∧ PairTyOk dst dst ∧ Coprime dst.per ∧
+    PairTyOk (cdTy frm dst) (cdTy dst frm) ∧ PairTyOk (cdTy dst frm) (cdTy frm dst)
+instance (dst frm : DurTy) : Decidable (RoundTyOk dst frm) := by unfold RoundTyOk; infer_instance
+
+/-- `dur - low` and `high - dur` as tick counts of the common type -/
+def lowDiff (dst frm : DurTy) (c : Int) : Int :=
+  c * mulL frm.per dst.per - Spec.floor frm.per.toRat dst.per.toRat c * mulR frm.per dst.per
+def highDiff (dst frm : DurTy) (c : Int) : Int :=
+  (Spec.floor frm.per.toRat dst.per.toRat c + 1) * mulL dst.per frm.per - c * mulR dst.per frm.per
+
+/-- run-time preconditions of `round<To>(From)`: every intermediate is representable -/
+def RoundIn (dst frm : DurTy) (c : Int) : Prop :=
+  CastIn dst frm c ∧ PairIn frm dst c (Spec.cast frm.per.toRat dst.per.toRat c) ∧
+  dst.rep.inR (Spec.cast frm.per.toRat dst.per.toRat c + -1) = true ∧
+  dst.rep.inR (Spec.floor frm.per.toRat dst.per.toRat c) = true ∧
+  dst.rep.inR (Spec.floor frm.per.toRat dst.per.toRat c + 1) = true ∧
+  PairIn frm dst c (Spec.floor frm.per.toRat dst.per.toRat c) ∧ (cdTy frm dst).rep.inR (lowDiff dst frm c) = true ∧
+  PairIn dst frm (Spec.floor frm.per.toRat dst.per.toRat c + 1) c ∧ (cdTy dst frm).rep.inR (highDiff dst frm c) = true ∧
+  PairIn (cdTy frm dst) (cdTy dst frm) (lowDiff dst frm c) (highDiff dst frm c) ∧
+  PairIn (cdTy dst frm) (cdTy frm dst) (highDiff dst frm c) (lowDiff dst frm c)
+instance (dst frm : DurTy) (c : Int) : Decidable (RoundIn dst frm c) := by unfold RoundIn; infer_instance
+
+/-- `round<To>(d)` is the integer nearest to the exact quotient `c · p / q`, ties to the even integer; no intermediate overflows. -/
+theorem round_eq (dst frm : DurTy) (h : RoundTyOk dst frm) (c : Int) (hin : RoundIn dst frm c) :
+    roundTo dst frm c = .ok (Spec.round frm.per.toRat dst.per.toRat c) := by
+  obtain ⟨hct, hfd, hdf, hdd, hco, hlh, hhl⟩ := h
+  obtain ⟨i1, i2, i3, i4, i5, i6, i7, i8, i9, i10, i11⟩ := hin
+  have hpd : PerOk dst.per := hct.2.2.2.1
+  have hpf : PerOk frm.per := hct.2.2.1
+  have hrd : RepOk dst.rep := hct.1
+  have hQ := toRat_pos dst.per hpd
+  -- static context
+  have hctx : roundCtx dst frm = .ok ⟨⟨dst, castK dst frm, pairK frm dst⟩, pairK dst dst, castK dst dst, pairK frm dst,
+      pairK dst frm, pairK (cdTy frm dst) (cdTy dst frm), pairK (cdTy dst frm) (cdTy frm dst)⟩ := by
+    unfold roundCtx
+    rw [floorCtx_eq dst frm hct hfd, pairCtx_eq dst dst hdd.1 hdd.2.1 hdd.2.2.1 hdd.2.2.2.1 hdd.2.2.2.2]
+    simp only [bind, Except.bind]
+    have e : (pairK dst dst).cd = dst := cdTy_self dst hpd hco
+    rw [e]
+    have hself : DivOk dst.per dst.per := by
+      have := hdd.2.2.2.2.2.1
+      rwa [cdPer_self _ hpd hco] at this
+    rw [castCtx_eq dst dst hrd hrd hpd hpd hself,
+      pairCtx_eq frm dst hfd.1 hfd.2.1 hfd.2.2.1 hfd.2.2.2.1 hfd.2.2.2.2,
+      pairCtx_eq dst frm hdf.1 hdf.2.1 hdf.2.2.1 hdf.2.2.2.1 hdf.2.2.2.2]
+    simp only
+    have e1 : (pairK frm dst).cd = cdTy frm dst := rfl
+    have e2 : (pairK dst frm).cd = cdTy dst frm := rfl
+    rw [e1, e2, pairCtx_eq _ _ hlh.1 hlh.2.1 hlh.2.2.1 hlh.2.2.2.1 hlh.2.2.2.2,
+      pairCtx_eq _ _ hhl.1 hhl.2.1 hhl.2.2.1 hhl.2.2.2.1 hhl.2.2.2.2]
+    rfl
+  -- run-time steps
+  have s1 := floorCore_spec dst frm hct hfd c i1 i2 i3
+  have h1r : dst.rep.inR 1 = true := by
+    obtain ⟨hs, h1, h2⟩ := hrd
+    rw [inR_iff]; unfold ITy.min ITy.max; simp only [hs, if_true]
+    have : (2:Int) ^ 31 ≤ 2 ^ (dst.rep.w - 1) := pow_mono _ _ (by omega)
+    have : (2:Int) ^ 31 = 2147483648 := by norm_num
+    omega
+  have c1 : dst.rep.conv 1 = 1 := conv_of_inR _ (repOk_w hrd) _ h1r
+  have cv : ∀ x : Int, dst.rep.inR x = true → convertCore ⟨dst.rep, imax, ⟨1, 1⟩⟩ x = .ok x := by
+    intro x hx
+    have := convertCore_eq dst.rep hrd 1 (by decide) (by decide) x (repOk_sub hrd x hx) (by rwa [Int.mul_one])
+    rwa [Int.mul_one] at this
+  have s2 : addCore (pairK dst dst) (Spec.floor frm.per.toRat dst.per.toRat c) (dst.rep.conv 1)
+      = .ok (Spec.floor frm.per.toRat dst.per.toRat c + 1) := by
+    rw [pairK_self dst hpd hco, c1]
+    simp only [addCore, cv _ i4, cv _ h1r, bind, Except.bind]
+    rw [repOk_promote hrd, arith_ok _ (repOk_w hrd) _ i5]
+    simp only [mkCD_id _ hrd _ i5]
+  have s3 : convertCore (castK dst dst) (Spec.floor frm.per.toRat dst.per.toRat c + 1)
+      = .ok (Spec.floor frm.per.toRat dst.per.toRat c + 1) := by
+    rw [castK_self dst hpd]; exact cv _ i5
+  have s4 := subCore_spec frm dst hfd c _ i6 i7
+  have s5 := subCore_spec dst frm hdf _ c i8 i9
+  have s6 := ltCore_spec _ _ hlh _ _ i10
+  have s7 := ltCore_spec _ _ hhl _ _ i11
+  unfold roundTo
+  rw [hctx]
+  simp only [bind, Except.bind, roundCore, s1, s2, s3]
+  have e4 : subCore (pairK frm dst) c (Spec.floor frm.per.toRat dst.per.toRat c) = .ok (lowDiff dst frm c) := s4
+  have e5 : subCore (pairK dst frm) (Spec.floor frm.per.toRat dst.per.toRat c + 1) c = .ok (highDiff dst frm c) := s5
+  simp only [e4, e5, s6, s7]
+  -- the two comparisons, in ℚ
+  obtain ⟨a1, a2, hcp, _⟩ := mul_rat frm.per dst.per hpf hpd hfd.2.2.2.2.1
+  obtain ⟨b1, b2, hcp', _⟩ := mul_rat dst.per frm.per hpd hpf hdf.2.2.2.2.1
+  have hcomm : (cdPer dst.per frm.per) = (cdPer frm.per dst.per) := cdPer_comm _ _
+  rw [hcomm] at b1 b2
+  have pL : (cdTy frm dst).per.toRat = (cdPer frm.per dst.per).toRat := rfl
+  have pH : (cdTy dst frm).per.toRat = (cdPer frm.per dst.per).toRat := by show (cdPer dst.per frm.per).toRat = _; rw [hcomm]
+  set CP := (cdPer frm.per dst.per).toRat with hCP
+  set X := Spec.val frm.per.toRat c / dst.per.toRat with hX
+  have hfl : Spec.floor frm.per.toRat dst.per.toRat c = ⌊X⌋ := rfl
+  set f := Spec.floor frm.per.toRat dst.per.toRat c with hf
+  have hXQ : X * dst.per.toRat = (c : ℚ) * frm.per.toRat := by
+    rw [hX]; unfold Spec.val; field_simp
+  have vL : (lowDiff dst frm c : ℚ) * CP = (c : ℚ) * frm.per.toRat - (f : ℚ) * dst.per.toRat := by
+    have e : lowDiff dst frm c = c * mulL frm.per dst.per - f * mulR frm.per dst.per := rfl
+    rw [e]; push_cast; linear_combination (c : ℚ) * a1 - (f : ℚ) * a2
+  have vH : (highDiff dst frm c : ℚ) * CP = ((f : ℚ) + 1) * dst.per.toRat - (c : ℚ) * frm.per.toRat := by
+    have e : highDiff dst frm c = (f + 1) * mulL dst.per frm.per - c * mulR dst.per frm.per := rfl
+    rw [e]; push_cast; linear_combination ((f : ℚ) + 1) * b1 - (c : ℚ) * b2
+  have hA : Spec.lt (cdTy frm dst).per.toRat (cdTy dst frm).per.toRat (lowDiff dst frm c) (highDiff dst frm c) = true
+      ↔ X - f < 1 / 2 := by
+    unfold Spec.lt Spec.val
+    rw [decide_eq_true_eq, pL, pH, vL, vH, ← hXQ]
+    constructor
+    · intro hh; nlinarith
+    · intro hh; nlinarith
+  have hB : Spec.lt (cdTy dst frm).per.toRat (cdTy frm dst).per.toRat (highDiff dst frm c) (lowDiff dst frm c) = true
+      ↔ 1 / 2 < X - f := by
+    unfold Spec.lt Spec.val
+    rw [decide_eq_true_eq, pL, pH, vL, vH, ← hXQ]
+    constructor
+    · intro hh; nlinarith
+    · intro hh; nlinarith
+  have key := roundEven_cases X f hfl _ _ hA hB
+  unfold Spec.round
+  rw [← key]
+  simp only [Bool.decide_eq_true]
+  split <;> [rfl; (split <;> [rfl; (split <;> rfl)])]
+
+
+/-! ## non-vacuity of the hypotheses (kernel-evaluated on samples: tests, not proofs of anything general) -/
+
+/-- milliseconds (int32) and ticks of 1001/30000 s (int64): every static precondition used above holds -/
+example : PairTyOk ⟨i32, ⟨1, 1000⟩⟩ ⟨i64, ⟨1001, 30000⟩⟩ ∧ PairTyOk ⟨i64, ⟨1001, 30000⟩⟩ ⟨i32, ⟨1, 1000⟩⟩ ∧
+    CastTyOk ⟨i32, ⟨1, 1000⟩⟩ ⟨i64, ⟨1001, 30000⟩⟩ := by decide +kernel
+
+/-- the run-time preconditions on a negative, non-integral quotient: -7 ticks of 1001/30000 s = -233.5666… ms -/
+example : PairIn ⟨i64, ⟨1001, 30000⟩⟩ ⟨i32, ⟨1, 1000⟩⟩ (-7) (-233) ∧ PairIn ⟨i32, ⟨1, 1000⟩⟩ ⟨i64, ⟨1001, 30000⟩⟩ (-233) (-7) ∧
+    CastIn ⟨i32, ⟨1, 1000⟩⟩ ⟨i64, ⟨1001, 30000⟩⟩ (-7) := by decide +kernel
+
+/-- the theorems instantiated there: floor = -234, ceil = -233, `-7 ticks < -233 ms` -/
+example : floorTo ⟨i32, ⟨1, 1000⟩⟩ ⟨i64, ⟨1001, 30000⟩⟩ (-7) = .ok (-234) := by
+  rw [floor_eq _ _ (by decide +kernel) (by decide +kernel) _ (by decide +kernel) (by decide +kernel) (by decide +kernel)]
+  decide +kernel
+example : ceilTo ⟨i32, ⟨1, 1000⟩⟩ ⟨i64, ⟨1001, 30000⟩⟩ (-7) = .ok (-233) := by
+  rw [ceil_eq _ _ (by decide +kernel) (by decide +kernel) _ (by decide +kernel) (by decide +kernel) (by decide +kernel)]
+  decide +kernel
+example : lt ⟨i64, ⟨1001, 30000⟩⟩ ⟨i32, ⟨1, 1000⟩⟩ (-7) (-233) = .ok true := by
+  rw [lt_eq _ _ (by decide +kernel) _ _ (by decide +kernel)]
+  decide +kernel
 
 end Tetl.C12.Props
